@@ -217,6 +217,46 @@ func Check(env *core.Env, rep *core.Report) *core.Result {
 		}
 	})
 
+	// (1b) outside the model's token alphabet: output that ENDS in the beginning of an escape sequence
+	// (ESC alone, ESC [ with or without parameter bytes that no final byte follows): that is not a
+	// sequence, so by the statement's own definition those bytes are part of the task's output - under
+	// a single write and under every split into two writes
+	for _, tailFrag := range []string{"\x1b", "\x1b[", "\x1b[?", "\x1b(", "\x1b[;"} {
+		for _, head := range []string{"one \x1b[31mred\x1b[0m two\nlast ", ""} {
+			stream := []byte(head + tailFrag)
+			for cut := 0; cut <= len(stream); cut++ {
+				sk := &sink{}
+				t := task.FromCommands("true")
+				t.Name = "frag"
+				o, err := output.NewTaskOutput(t, output.FormatPrefixed, sk, sk)
+				if err != nil {
+					core.Broken("NewTaskOutput: %v", err)
+				}
+				_ = o.Start()
+				w := o.Stdout()
+				if cut > 0 {
+					_, _ = w.Write(append([]byte{}, stream[:cut]...))
+				}
+				if cut < len(stream) {
+					_, _ = w.Write(append([]byte{}, stream[cut:]...))
+				}
+				_ = o.Finish()
+				atomic.AddInt64(&evals, 1)
+				var concat []byte
+				okLines := true
+				for _, wr := range sk.writes {
+					_, txt, ok := splitWrite(wr, []string{"frag"})
+					okLines = okLines && ok
+					concat = append(concat, txt...)
+				}
+				if !okLines || norm(concat) != norm(stream) {
+					add("prefixed:bytes-lost-duplicated-or-leaked", fmt.Sprintf("output %q (it ends in the beginning of an escape sequence) written as %q + %q: after normalisation the sink has %q, the task wrote %q", stream, stream[:cut], stream[cut:], norm(concat), norm(stream)), map[string]interface{}{"sink": fmt.Sprintf("%q", sk.writes)})
+					break
+				}
+			}
+		}
+	}
+
 	// (2) raw format forwards bytes unchanged; long lines; concurrent writers with random chunkings
 	nConc := 60
 	if thorough {
